@@ -46,6 +46,7 @@ type Obligation struct {
 	noOptAx     bool // ground map-value allocation instances left out as well
 	Reach       Term   // path condition the goal is stated under
 	splitOn     string // extra assertion: one disjunct of the path condition (path splitting)
+	expectFail  bool   // recorded as a known finding: decided with one bounded attempt
 	noHeapAx    bool // quantified heap axioms left out (first attempt; sound weakening)
 	excludeTags map[string]bool
 	Helpers     []*Obligation // lemmas assumed (when discharged) while deciding this obligation
